@@ -51,6 +51,7 @@ package ptracer
 //@   assigns all(buff)
 //@   callsite vmRead: assert @C02 pid == old(pid) && sarr(buff) == sarr(old(buff)) && soff(buff) == soff(old(buff)) + totalRead
 //@   callsite vmRead: assert @C02 addr == (old(addr) + uintptr(totalRead)) % 18446744073709551616
+//@   callsite hasNull: assert @C02 len(buff) == curRead && sarr(buff) == sarr(caller_buff) && soff(buff) == soff(caller_buff)
 //@   loop 0: invariant nextRead >= 1
 //@   loop 0: invariant totalRead >= 0
 //@   loop 0: invariant totalRead == soff(buff) - soff(old(buff))
